@@ -523,7 +523,61 @@ def dsl_batch_sweep(mlr, V, thorough):
                 key = {"shape": "output-depends-on-batch-size-or-hash-mode", "family": "step-slwin-backward-window-then-modification"}
             V.violation(key,
                         {"command": cmd, "groups_of_agreeing_settings": sorted(byb.values(), key=len), "depends_only_on_hash_mode": only_hash})
-    return {"commands": len(SWEEP_COMMANDS), "settings_per_command": len(variants), "runs": len(cases), "differing": differing}
+    long_info = long_chain_sweep(mlr, V, thorough)
+    return {"commands": len(SWEEP_COMMANDS), "settings_per_command": len(variants), "runs": len(cases), "differing": differing,
+            "long_chains": long_info}
+
+
+# chains in which several verbs of one process do per-record work on the same kinds of data at the same time (grouping on two
+# fields, windows, counters): each verb is its own goroutine, so on an input of many batches they run concurrently
+LONG_COMMANDS = [
+    ["cat", "-n", "-g", "k,n", "then", "head", "-n", "2", "-g", "k,n"],
+    ["cat", "-N", "idx", "-g", "k,n", "then", "step", "-a", "counter,rsum", "-f", "i", "-g", "k,n", "then", "head", "-n", "100", "-g", "n,k"],
+    ["step", "-a", "shift,delta", "-f", "i", "-g", "k,n", "then", "cat", "-n", "-g", "n,k", "then", "decimate", "-n", "3", "-g", "k,n"],
+    ["count-similar", "-g", "k,n", "then", "cat", "-n", "-g", "k,n", "then", "tail", "-n", "2", "-g", "n,k"],
+    ["fill-down", "-f", "j", "then", "cat", "-n", "-g", "k,j", "then", "uniq", "-g", "k,n", "-c"],
+    ["put", "$s = $k . \":\" . $n", "then", "cat", "-n", "-g", "s,k", "then", "put", "$t = $n . $s", "then", "head", "-n", "3", "-g", "t,k"],
+    ["sec2gmt", "i", "then", "cat", "-n", "-g", "k,n", "then", "sec2gmt", "a", "then", "head", "-n", "4", "-g", "n,k"],
+]
+
+
+def long_chain_sweep(mlr, V, thorough):
+    """The same oracle on an input of 6000 records (12 batches of 500): all runs of a chain must agree, whatever the batch size,
+    the number of CPUs and the run. Repeated runs: a data race between the verbs' goroutines shows as disagreement."""
+    rows = []
+    for i in range(1, 6001):
+        rows.append("a=%d,b=%d,k=g%d,j=%s,i=%d,n=%d" % (i, i * 2, i % 3, "x" if i % 5 else "", i, i % 4 + 1))
+    body = "\n".join(rows) + "\n"
+    settings = [(b, e) for b in (100, 500, 1000) for e in ({}, {"GOMAXPROCS": "4"}, {"GOMAXPROCS": "1"})]
+    repeats = 3 if thorough else 2
+    cases, meta = [], []
+    for ci, cmd in enumerate(LONG_COMMANDS):
+        for b, e in settings:
+            for rep in range(repeats):
+                cases.append({"argv": [mlr, "--records-per-batch", str(b)] + cmd + ["in.dkvp"], "files": {"in.dkvp": body}, "env": e,
+                              "timeout_ms": 30000})
+                meta.append((ci, b, e.get("GOMAXPROCS", "all")))
+    res = vlib.run_cases(cases)
+    vlib.confirm_timeouts(cases, res)
+    by = {}
+    for m, r in zip(meta, res):
+        by.setdefault(m[0], []).append((m, r))
+    differing = []
+    for ci, lst in by.items():
+        cmd = LONG_COMMANDS[ci]
+        if any(r["timed_out"] for _, r in lst):
+            V.violation({"shape": "hang", "command": cmd}, {"command": cmd})
+            continue
+        groups = {}
+        for m, r in lst:
+            groups.setdefault((r["exit"], r["stdout"]), []).append("%d/%s" % (m[1], m[2]))
+        if len(groups) > 1:
+            differing.append(cmd)
+            crash = next((r["stderr"][:600] for _, r in lst if r["exit"] != 0), "")
+            V.violation({"shape": "long-chain-output-differs-between-runs", "command": cmd},
+                        {"command": cmd, "groups_of_agreeing_runs": sorted(groups.values(), key=len),
+                         "output_lines": sorted({k[1].count("\n") for k in groups}), "stderr_of_a_failing_run": crash})
+    return {"commands": len(LONG_COMMANDS), "runs": len(cases), "records": 6000, "differing": differing}
 
 
 def printhead_probe(mlr, V):
